@@ -6,7 +6,7 @@ props = [json.loads(l) for l in open(os.path.join(V, "properties.jsonl"))]
 
 # id -> (level, technique, level text, level note, design ref)
 CLAIMED = {
- "C12": ("exploration", "deterministic simulation: the real FsWatcherBuilder -> handler -> id_of_path -> EventSender chain driven by a stub notify back-end on a simulated watcher thread, with real create/write/rename/delete histories on a scratch directory and synthetic notifications of every kind, 1-2 (nested) roots, relative path components, paths outside the roots and invalid names; events read from a probe (hook H7) and compared with the property's table",
+ "C12": ("exploration", "deterministic simulation: the real FsWatcherBuilder -> handler -> id_of_path -> EventSender chain driven by a stub notify back-end on a simulated watcher thread, with real create/write/rename/delete histories on a scratch directory and synthetic notifications of every kind, 1-2 (nested) roots, relative path components, paths outside the roots and invalid names; events read from a probe (hook H7) and compared with the property's table; one run in four is end to end instead (real AssetCache over the directory, real operations, delivered notifications, hot_reload, cached file and directory assets compared with the directory)",
          "Seeded search over trees, operation histories, notification kinds and path forms; for every delivered notification the events on the probe must be exactly the entries the property's table names (entry under every root that contains it; plus parent for create / rename / delete; nothing for Access / Other / errors / outside / invalid names / before start), the watcher must keep working afterwards, and path_of / id_of_path must round-trip. Sampling, not proof.",
          "The notify/inotify back-end is a stub that delivers the event kinds notify 6.1.1 produces on Linux; the handler and everything below it are real. Known open finding F-C12d is matched by signature.", "DESIGN.md §7 C12"),
  "C04": ("exploration", "deterministic simulation: one generated tree materialised as a real directory (FileSystem), tar and zip archives (member order permutations, with/without directory members, ./ prefix, gnu/ustar headers with long names, stored/deflated) and the embedded form (the real embed! walker run on the directory); archives behind a faultable in-memory reader (short reads, EINTR, hard errors at open time or later) and file-backed; 1-3 threads querying one source",
@@ -17,7 +17,7 @@ CLAIMED = {
          "The load/get_or_insert insertion race is C01's scenario. Known open finding F-C10a is matched by signature.", "DESIGN.md §7 C10"),
  "C13": ("exploration", "deterministic simulation: C02-style histories on all front-ends extended with reload rounds, insertion races, a guard-holding reader during passes and cache drop with queued events; drop ledger equality (alive = stored) after every operation; exhaustive wrong-type views of untyped handles",
          "Seeded search over histories and schedules with tracked values of several sizes/alignments (zero-sized, 1 byte, 64-byte aligned, heap-owning, 4 KiB): after every operation the set of live tracked values must equal the set reachable from the cache (no leak, no early drop), stored values are pinned while operations that must not drop them run, a value behind a live read guard never changes or dies during a pass, racing creators end with one stored value, everything is gone after the cache is dropped; every (stored type, requested type) pair over 21 asset types is probed through is / downcast_ref / guard downcast. Sampling, not proof.",
-         "Allocation-level accounting (layout on free, raw leaks) is done for SharedBytes in C16 and by the Miri engine; here the ledger works on tracked values.", "DESIGN.md §7 C13"),
+         "Allocation-level accounting (layout on free, raw leaks) is done for SharedBytes in C16; here the ledger works on tracked values. The Miri engine runs readers against a stream of reloads of heap values on the whole real cache (use after free, double free and leaks are its oracle).", "DESIGN.md §7 C13"),
  "C06": ("exploration", "deterministic simulation: the dependency-graph scenarios of C05 in local mode (recipe compounds, edits, duplicated/batched/unrelated/missing notifications, barriers) with the precision half of the fixpoint oracle, reload ids, ReloadWatcher / reloaded_global and a polling reader racing the reloader",
          "Seeded search over dependency graphs, edit histories and schedules; oracles: assets outside the model's reverse closure keep value and reload id, each affected asset's id grows by exactly one per pass and by zero on a failed reload, watchers and the global flag report exactly the rewrites since they were armed (and only once), un-notified edits and unrelated notifications change nothing, a reader that polls its watcher during the pass never reads a value older than the reload it was told about. Sampling, not proof.",
          "The model mirrors the dependency sets each (re)load recorded; rounds in which a reload caches a previously absent asset, or that show the known F-C05b shape, are stopped and counted.", "DESIGN.md §7 C06"),
@@ -30,15 +30,15 @@ CLAIMED = {
  "C03": ("exploration", "deterministic simulation of the faultable Source seam: per-extension states present / undecodable / absent / unreadable(kind), break-load-repair-load histories, nested compounds, against the executable load model",
          "Seeded search over source states and break/repair histories for 9 leaf types (0-3 extensions, with/without default_value, empty-string extension, opted-out) and compounds nested to depth 4; oracles: value and error (id, class precedence Conversion > Io(other) > Io(NotFound) > no-default, wrapping under the compound's id) equal to the load model, bytes handed to the loader identical to the stored file of the first loadable extension, nothing cached after a failure, load_expect agrees, success after repair. Sampling, not proof.",
          "Single simulated thread: the simulated part is the faultable I/O seam and the history, not interleaving.", "DESIGN.md §7 C03"),
- "C11": ("exploration", "deterministic simulation of the faultable read_dir seam over generated trees (arbitrary listing order, same stem with several extensions, file and directory sharing an id, unreadable sub-directories), against an independent tree model",
+ "C11": ("exploration", "deterministic simulation of the faultable read_dir seam over generated trees (arbitrary listing order, same stem with several extensions, file and directory sharing an id, unreadable sub-directories), and the same trees through the four real source kinds, against an independent tree model",
          "Seeded search over trees (depth <= 3), extension lists (one, several, overlapping, empty-string, Arc-wrapped), directories incl. the root and a missing one, pre-loaded subsets; oracles: Directory::ids sorted and duplicate-free and equal to the tree model, RecursiveDirectory::ids equal as a set to the union over readable sub-directories without duplicates, iter loads exactly the listed ids, iter_cached yields exactly the cached ones. Sampling, not proof.",
-         "Single simulated thread; archive-backed directories are exercised by C04's source comparison.", "DESIGN.md §7 C11"),
+         "Single simulated thread; one run in eight lists the same tree through caches over the real FileSystem, Tar, Zip and Embedded sources built as in C04.", "DESIGN.md §7 C11"),
  "C07": ("exploration", "deterministic simulation: 1-4 reader threads (short reads, long-held guards, mapped guards, two-halves reads, copied(), watcher polling) against a stream of reloads, both RwLock preference policies and both lock front-ends",
          "Seeded search over interleavings of readers and the reloader around the per-entry RwLock; oracles: self-checking values (no mixture), value / reload id / liveness constant while a guard is alive, hot_reload returns only when the notified content is installed, every creation/drop performed by the reloader lies inside a hot_reload call (ledger sequence numbers), nothing moves at quiescence, watcher polling never reads an older value than the reported reload. Sampling, not proof.",
          "swap_any has no scheduling point inside, so a lock-bypassing reader cannot observe a half-written value under engine A: engine A checks mutual exclusion at the seam (hook H8), and the Miri engine runs readers against reloads on the real locks, where such a reader is a data race.", "DESIGN.md §7 C07"),
  "C01": ("exploration", "deterministic simulation: seeded schedules of 2-4 threads racing load/get_cached/get_or_insert/contains on hot keys with filler bursts (rehash), shard/hash/lock-policy knobs; pointer identity, drop ledger, linearizability against an insert-once slot",
          "Seeded search over interleavings (random, sticky, PCT) of racing loaders and inserters on 1-3 hot keys x 3 kinds of types with unrelated insertion bursts, on 1..256 shards (incl. non-power-of-two counts), through AssetCache and AnyCache; every source read is a scheduling point so several loaders are past the miss before any inserts. Oracles: same address for every handle of a key, one winner observed by all, losers dropped, stored value never dropped while reachable (ledger), per-key history linearizable against an insert-once slot, handles re-read after bursts, remove/take/clear between phases. Sampling, not proof.",
-         "Shard RwLocks are simulator models; memory errors proper (use after free) are only seen as crashes of the worker process, which are confirmed and minimised in fresh processes.", "DESIGN.md §7 C01"),
+         "Shard RwLocks are simulator models under engine A, where memory errors proper (use after free) are only seen as crashes of the worker process, confirmed and minimised in fresh processes; the Miri engine runs racing creators on the real sharded map with real locks, where a dangling handle is reported as undefined behaviour.", "DESIGN.md §7 C01"),
  "C05": ("exploration", "deterministic simulation: edits + notification faults (batched, duplicated, other thread, noise, never sent) + barriers against an executable model; plain (hot_reload) and static (enhance_hot_reloading + quiescence) modes",
          "Seeded search over edit/notification histories and schedules of caller, notifier and reloader threads; after every barrier each cached asset whose entries were notified must equal a fresh load from the current source, failed reloads keep the old value and recover later, un-notified edits change nothing. Sampling, not proof.",
          "Channels, locks and the condvar mailbox are simulator models; the source is in-memory.", "DESIGN.md §7 C05"),
@@ -48,7 +48,7 @@ CLAIMED = {
  "C09": ("fault_enumeration", "deterministic simulation with exhaustive fault positions per sampled scenario: every source read index x 4 io error kinds and every loader invocation x {Err, panic}, on caller threads and on the reloader thread",
          "For each sampled scenario (nested compounds, load / load_owned / get_or_insert / edit / hot_reload) a fault-free dry run counts reads and loader invocations, then the scenario is re-run once per fault position. Oracles: error names the requested id, nothing cached by a failed call, cached values and reload ids untouched, no partially built value alive (ledger), the thread-local recorder restored (hook H7) on return and on unwind, reloads are all-or-nothing, and after repair + notification + hot_reload the cache equals the fault-free final state. Scenarios and schedules are sampled.",
          "Fault positions are exhaustive only within each sampled scenario.", "DESIGN.md §7 C09"),
- "C15": ("exploration", "deterministic simulation: create/use/drop histories of 1-4 caches over a custom source, dropped idle / after hot_reload / with queued events; quiescence observation of the reloader threads",
+ "C15": ("exploration", "deterministic simulation: create/use/drop histories of 1-4 caches over custom sources (with and without hot-reloading support, failing configuration) and FileSystem sources on the notify stub, dropped idle / after hot_reload / with queued events; quiescence observation of the reloader threads",
          "Seeded search over create/use/drop sequences and schedules; after every drop and in every quiet period the simulator waits for global quiescence: a reloader that keeps taking scheduling points is reported as a spin with the thread states; late notifications after the drop are injected too. Sampling, not proof.",
          "'No CPU' is modelled as 'blocked in the simulator'; Select::ready on a disconnected channel follows crossbeam's documented behaviour (always ready).", "DESIGN.md §7 C15"),
  "C16": ("exploration", "deterministic simulation: seeded schedules of clone/read/move/drop across threads (detsim, accounting allocator) + Miri seeded scheduler (UB, data race, leak oracle)",
